@@ -2,7 +2,7 @@
 no parse-failure bypass, must-pass on every path to an executor, knowledge-graph tracking,
 system-KG guard."""
 import re
-from ..core import CheckError, op_local, op_place, proj, place_fields
+from ..core import CheckError, Call, op_local, op_place, proj, place_fields
 from . import common, dur
 
 H = "protocol::handler::Handler"
@@ -78,7 +78,8 @@ def rule_must_pass(F, ctx, prop):
         ctx.site("sink %s" % (s.resolved or s.static).split("::")[-1], s.where(), ok=ok)
         if not ok:
             ctx.violation("%s:R-AUTH-3:unauthorized-path:%s" % (EP, (s.resolved or s.static).split("::")[-1]), "execute_program reaches %s on a path that does not pass the per-statement authorization" % (s.resolved or s.static).split("::")[-1], s.where())
-    # arguments: identity <- refresh_user_role-derived (effective_auth), program <- program param, kg <- knowledge_graph param / session kg
+    # arguments: identity <- refresh_user_role-derived (effective_auth), program <- program param,
+    # targets <- explicit knowledge_graph param AND the session's graph AND the engine's current graph (fallback)
     prog = f.local_named("program")
     kgp = f.local_named("knowledge_graph")
     ident_src = [c for c in f.normal_calls() if c.resolved == H + "::refresh_user_role"]
@@ -87,10 +88,30 @@ def rule_must_pass(F, ctx, prop):
     d_id = set()
     for c in ident_src:
         d_id |= f.derive({c.dst["l"]}, through_calls=True)
-    ok = len(a.args) >= 4 and op_local(a.args[1]) in d_id and op_local(a.args[2]) in d_prog and op_local(a.args[3]) in d_kg
-    ctx.site("authorization receives the refreshed identity, the program text and the request's knowledge graph", a.where(), ok=ok)
+    skg = [c for c in f.normal_calls() if c.resolved == "session::SessionManager::session_kg" and f.dominates(c.bb, a.bb)]
+    cur = [c for c in f.normal_calls() if c.resolved == "storage_engine::StorageEngine::current_knowledge_graph" and f.dominates(c.bb, a.bb) or (c.resolved == "storage_engine::StorageEngine::current_knowledge_graph" and a.bb in f.reachable_from([c.bb]))]
+    d_s, d_c = set(), set()
+    for c in skg:
+        d_s |= f.derive({c.dst["l"]}, through_calls=True)
+    for c in f.normal_calls():
+        if c.resolved == "session::SessionManager::session_kg" and a.bb in f.reachable_from([c.bb]):
+            d_s |= f.derive({c.dst["l"]}, through_calls=True)
+    for c in cur:
+        d_c |= f.derive({c.dst["l"]}, through_calls=True)
+    # the session's graph is looked up inside a closure handed to Option::and_then: taint the result of that call
+    import re as _re
+    for bbx in dur.closure_call_sites(F, f, _re.compile(r"^session::SessionManager::session_kg$")):
+        if a.bb in f.reachable_from([bbx]):
+            d_s |= f.derive({f.term(bbx)["dst"]["l"]}, through_calls=True)
+    ok = len(a.args) >= 4 and op_local(a.args[1]) in d_id and op_local(a.args[2]) in d_prog
+    t_l = op_local(a.args[3]) if len(a.args) >= 4 else None
+    ok_t = t_l is not None and t_l in d_kg and t_l in d_s and t_l in d_c
+    ctx.site("authorization receives the refreshed identity and the program text", a.where(), ok=ok)
     if not ok:
-        ctx.violation(EP + ":R-AUTH-3:wrong-arguments", "authorize_program_lines is not called with the refreshed identity, the submitted program text and the request's/session's knowledge graph", a.where())
+        ctx.violation(EP + ":R-AUTH-3:wrong-arguments", "authorize_program_lines is not called with the refreshed identity and the submitted program text", a.where())
+    ctx.site("authorization targets cover the explicit graph, the session's graph and the engine's current graph", a.where(), ok=ok_t, explicit=t_l in d_kg if t_l is not None else None, session=t_l in d_s if t_l is not None else None, fallback=t_l in d_c if t_l is not None else None)
+    if not ok_t:
+        ctx.violation(EP + ":R-AUTH-3:target-graphs-incomplete", "the set of knowledge graphs handed to the authorization does not cover every graph the executor may run the statement on (explicit graph, the session's graph, and the engine's current graph when neither is given)", a.where())
     ctx.end_rule()
 
 
@@ -157,7 +178,9 @@ def rule_no_bypass(F, ctx):
     if ok_t is None:
         ok_t = other
     aos = [c for c in f.normal_calls() if c.resolved == AOS]
-    nexts = [c.bb for c in f.normal_calls() if (c.static or "") == "std::iter::Iterator::next" and c.bb in loops]
+    nexts = [c.bb for c in f.normal_calls() if (c.static or "") == "std::iter::Iterator::next" and c.bb in loops and "std::str::Lines" in (c.static_args or "")]
+    if not nexts:
+        raise CheckError("authorize_program_lines: the loop over lines() was not found")
     rets, eb = f.success_returns()
     # Ok arm: cannot reach the next iteration or a success return without passing authorize_one_statement
     stop = set(eb) | {c.bb for c in aos}
@@ -191,54 +214,60 @@ def rule_no_bypass(F, ctx):
 
 
 def rule_kg_tracking(F, ctx):
-    """AUTH-4: the KG against which each statement is checked follows .kg use/.kg create of earlier lines."""
+    """AUTH-4: the set of graphs each statement is checked against follows .kg use/.kg create of earlier lines,
+    and the statement is checked against every member of the set."""
     f = F.fn(APL)
-    ctx.rule("R-AUTH-4", "the knowledge graph a statement is authorized against is updated by KgUse/KgCreate of earlier lines", floor=1)
+    ctx.rule("R-AUTH-4", "the graphs a statement is authorized against follow KgUse/KgCreate of earlier lines; every member is checked", floor=3)
     loops = dur.loop_blocks(f)
     aos = [c for c in f.normal_calls() if c.resolved == AOS]
     ps = [c for c in f.normal_calls() if c.resolved == PARSE and c.bb in loops]
     if not aos or not ps:
         raise CheckError("authorize_program_lines: anchors missing")
-    init = f.local_named("initial_kg")
-    tgt = f.local_named("target")
-    # the kg argument derives from a loop-carried local that (a) is initialised from initial_kg and (b) is assigned in the loop from the parsed statement
-    kg_arg = op_local(aos[0].args[3]) if len(aos[0].args) > 3 else None
-    org = set()
-    if kg_arg is not None:
-        # follow as_deref()/as_ref() calls backwards
-        org = common.origins(f, kg_arg)
-        for c in f.normal_calls():
-            if c.dst["l"] in org and re.search(r"Option::<.*>::(as_deref|as_ref)$", c.static_args or ""):
-                org |= common.origins(f, op_local(c.args[0]))
-    carried = None
-    for l in org:
-        assigned_in_loop = [i for i in loops for st in f.stmts(i) if st["d"]["l"] == l and not proj(st["d"])]
-        outside = [i for i in range(f.n) if i not in loops and ((f.term(i)["k"] == "call" and f.term(i)["dst"]["l"] == l) or any(st["d"]["l"] == l and not proj(st["d"]) for st in f.stmts(i)))]
-        if assigned_in_loop and outside:
-            carried = l
-    ok = carried is not None
-    if ok:
-        from_stmt = f.derive({ps[0].dst["l"]}, through_calls=True, stop_calls=[AOS])
-        srcs_ok = False
-        sw_ok = False
-        for i in loops:
-            for st in f.stmts(i):
-                if st["d"]["l"] == carried and not proj(st["d"]):
-                    rv = st["r"]
-                    ops = [op_local(o) for o in (rv.get("ops") or [rv.get("o")]) if o]
-                    if any(o in from_stmt for o in ops):
-                        srcs_ok = True
-                        # the assignment sits under KgUse / KgCreate arms of a MetaCommand switch
-                        for (bb, adt, pl, mm, other) in f.enum_switches("statement::meta::MetaCommand"):
-                            arms = {k for k, t in mm.items() if i in f.reachable_from([t]) and f.dominates(t, i)}
-                            if {"KgUse", "KgCreate"} <= {k for k, t in mm.items() if f.dominates(t, i) or t == i or i in f.reachable_from([t])}:
-                                sw_ok = True
-        init_ok = init is not None and carried in f.derive({init}, through_calls=True)
-        ok = srcs_ok and sw_ok and init_ok
-    ctx.site("loop-carried target KG: initialised from the request's KG, reassigned from KgUse/KgCreate", f.where(), ok=ok, carried_local=f.name_of(carried) if carried is not None else None)
-    if not ok:
-        ctx.violation(APL + ":R-AUTH-4:kg-not-tracked", "the knowledge graph used for the per-KG role lookup is not updated when an earlier line switches graphs (.kg use / .kg create): later statements are authorized against the wrong graph", f.where())
-    # and after authorization of the switching statement (the switch itself is authorized against the old target)
+    init = f.local_named("initial_targets")
+    tg = f.local_named("targets")
+    if init is None or tg is None:
+        raise CheckError("authorize_program_lines: locals initial_targets/targets not found")
+    from_stmt = f.derive({ps[0].dst["l"]}, through_calls=True, stop_calls=[AOS])
+    d_t = f.derive({tg}, through_calls=True, stop_calls=[AOS, PARSE])
+    # (1) initialised from the parameter
+    ok1 = tg in f.derive({init}, through_calls=False)
+    # (2) every authorization call takes its graph from `targets`
+    ok2 = all(len(c.args) > 3 and op_local(c.args[3]) in d_t for c in aos)
+    # one call outside any inner loop over targets (executed for every parsed statement) + one inside a loop over the rest
+    inner = []
+    for c in aos:
+        # inner loop: the call sits in a cycle that does not contain the parse call
+        cyc = c.bb in f.reachable_from([c.target] if c.target is not None else [], stop={ps[0].bb})
+        inner.append(cyc)
+    ok2 = ok2 and any(inner) and not all(inner)
+    # (3) updates under the KgUse / KgCreate arms, from the parsed statement
+    upd = {}
+    for (bb, adt, pl, mm, other) in f.enum_switches("statement::meta::MetaCommand"):
+        for k in ("KgUse", "KgCreate"):
+            if k not in mm:
+                continue
+            region = f.arm_region(list(mm.values()) + [other], mm[k], stop={bb})
+            hit = False
+            for i in region:
+                for st in f.stmts(i):
+                    if st["d"]["l"] == tg and not proj(st["d"]):
+                        ops = [op_local(o) for o in (st["r"].get("ops") or [st["r"].get("o")]) if o]
+                        if any(o in from_stmt for o in ops):
+                            hit = True
+                t = f.term(i)
+                if t["k"] == "call":
+                    c = Call(f, i, t)
+                    if re.search(r"Vec::<std::string::String>::push$", c.static_args or "") and op_local(c.args[0]) in d_t and op_local(c.args[1]) in from_stmt:
+                        hit = True
+                    if not proj(t["dst"]) and t["dst"]["l"] == tg and any(op_local(x) in from_stmt for x in t["args"]):
+                        hit = True
+            upd[k] = upd.get(k, False) or hit
+    ok3 = upd.get("KgUse", False) and upd.get("KgCreate", False)
+    ctx.site("targets initialised from the request's graphs", f.where(), ok=ok1)
+    ctx.site("every authorization call takes its graph from targets; first target unconditionally, the rest in a loop", f.where(), ok=ok2, calls=len(aos))
+    ctx.site("targets updated under KgUse and KgCreate from the parsed statement", f.where(), ok=ok3, updates=upd)
+    if not (ok1 and ok2 and ok3):
+        ctx.violation(APL + ":R-AUTH-4:kg-not-tracked", "the knowledge graphs used for the per-KG role lookup do not follow the program (initialised from the request: %s; every member checked: %s; updated on .kg use/.kg create: %s): later statements are authorized against the wrong graph" % (ok1, ok2, ok3), f.where())
     ctx.end_rule()
 
 
